@@ -9,7 +9,7 @@ Open Scope nat_scope.
    pipeline, every queued token, every thread and process by its program counter *)
 Definition act_pot (a : action) : nat := match a with ACall _ d _ => 14 * length d + 17 | AReady => 1 end.
 Definition w_pot (w : worker) : nat :=
-  match w_pc w with WNew => 5 | WBegin => 4 | WIdle => 3 | WHold _ _ => 14 | WRetire => 9 | WEnding => 1 | WDead => 0 end.
+  match w_pc w with WNew => 5 | WBegin => 4 | WIdle => 3 | WHold _ _ => 14 | WHoldR _ _ => 6 | WEnding => 1 | WDead => 0 end.
 Definition wsum (ps : list worker) : nat := list_sum (map w_pot ps).
 Definition wq_pot (q : list qitem) : nat := list_sum (map (fun it => match it with QChunk _ _ => 12 | QNone => 0 end) q).
 Definition replq_pot (q : list (option nat)) : nat := list_sum (map (fun it => match it with Some _ => 7 | None => 1 end) q).
@@ -51,11 +51,15 @@ Proof.
       rewrite set_nth_length;
       match goal with |- context [wsum (set_nth k ?x _)] => pose proof (wsum_set_nth _ k w x N) as Hs end;
       unfold w_pot in Hs; simpl in Hs; rewrite Pc in Hs; rewrite ?Q; unfold wq_pot; simpl; fold (wq_pot q); lia.
-  - destruct (full _ _); try discriminate. injection W as <- <-. unfold mu, with_procs; simpl. rewrite set_nth_length.
+  - destruct (c_factory cfg && _); try discriminate.
+    destruct (full _ _); try discriminate. injection W as <- <-. unfold mu, with_procs; simpl. rewrite set_nth_length.
     match goal with |- context [wsum (set_nth k ?x _)] => pose proof (wsum_set_nth _ k w x N) as Hs end.
     rewrite app_length. simpl. unfold w_pot in Hs; simpl in Hs; rewrite Pc in Hs.
-    revert Hs. destruct (w_quota w) as [[|[|q]]|]; try destruct (c_factory cfg); simpl; intros Hs; lia.
-  - injection W as <- <-. unfold mu, with_procs; simpl. rewrite set_nth_length.
+    revert Hs. destruct (w_quota w) as [[|[|q]]|]; simpl; intros Hs; lia.
+  - destruct (full _ _); try discriminate. injection W as <- <-. unfold mu, with_procs; simpl. rewrite set_nth_length.
+    match goal with |- context [wsum (set_nth k ?x _)] => pose proof (wsum_set_nth _ k w x N) as Hs end.
+    rewrite app_length. simpl. unfold w_pot in Hs; simpl in Hs; rewrite Pc in Hs. lia.
+  - destruct (c_factory cfg && _); try discriminate. injection W as <- <-. unfold mu, with_procs; simpl. rewrite set_nth_length.
     match goal with |- context [wsum (set_nth k ?x _)] => pose proof (wsum_set_nth _ k w x N) as Hs end.
     rewrite replq_pot_app. unfold w_pot in Hs; simpl in Hs; rewrite Pc in Hs. unfold replq_pot at 2. simpl. lia.
   - injection W as <- <-. unfold mu, with_procs; simpl. rewrite set_nth_length.
@@ -104,13 +108,9 @@ Lemma slot_step_frame cfg s k kind r s' : slot_step cfg s k kind r = Some s' ->
 Proof.
   intros H. apply slot_step_inv in H. destruct H as (w & w' & s1 & N & W & ->).
   unfold worker_step in W.
-  destruct kind as [|[|[|[|[|[|?]]]]]]; destruct (w_pc w) eqn:Pc; try discriminate.
-  - destruct r; injection W as <- <-; simpl; repeat split; auto.
-  - destruct (s_workq s) as [|[i xs|] q] eqn:Q; try discriminate; injection W as <- <-; simpl; repeat split; auto.
-  - destruct (full _ _); try discriminate. injection W as <- <-. simpl. repeat split; eauto.
-  - injection W as <- <-. simpl. repeat split; auto.
-  - injection W as <- <-. simpl. repeat split; auto.
-  - injection W as <- <-. simpl. repeat split; auto.
+  destruct kind as [|[|[|[|[|[|?]]]]]]; destruct (w_pc w) eqn:Pc; try discriminate;
+    repeat match type of W with context [match ?x with _ => _ end] => destruct x eqn:?; try discriminate end;
+    injection W as <- <-; simpl; repeat split; eauto.
 Qed.
 
 Lemma buf_del_length b i x : buf_get b i = Some x -> S (length (buf_del b i)) = length b.
@@ -199,7 +199,7 @@ Record SInv (cfg : config) (s : state) : Prop := {
             | _ => forall j w, nth_error (s_procs s) j = Some w -> w_pc w <> WNew end;
   s_ready : forall j w, nth_error (s_procs s) j = Some w -> w_ready w = false -> w_pc w = WNew \/ w_pc w = WBegin;
   s_nf : c_factory cfg = false ->
-         s_replq s = [] /\ (forall j w, nth_error (s_procs s) j = Some w -> w_pc w <> WRetire) /\ rep_pc (s_main s) = false
+         s_replq s = [] /\ (forall j w i xs, nth_error (s_procs s) j = Some w -> w_pc w <> WHoldR i xs) /\ rep_pc (s_main s) = false
          /\ s_rep s = ROff;
   s_tok : nones (s_replq s) + (match s_rep s with RDone => 1 | _ => 0 end) = (match s_main s with MRepJoin => 1 | _ => 0 end);
   s_replive : c_factory cfg = true -> cur_class (s_main s) <> 0 -> rep_live (s_rep s) = true \/ s_rep s = RDone;
@@ -211,10 +211,14 @@ Ltac wstep_cases W w s :=
   unfold worker_step in W;
   match type of W with (match ?kind with _ => _ end) = _ =>
     destruct kind as [|[|[|[|[|[|?]]]]]]; destruct (w_pc w) eqn:Pc; try discriminate;
-    [ injection W as <- <-
-    | destruct (s_workq s) as [|[i xs|] q] eqn:Q; try discriminate; injection W as <- <-
-    | destruct (full _ (s_resq s)) eqn:Fu; try discriminate; injection W as <- <-
-    | injection W as <- <- | injection W as <- <- | injection W as <- <- ]
+    [ injection W as <- <-                                                                       (* begin *)
+    | destruct (s_workq s) as [|[i xs|] q] eqn:Q; try discriminate; injection W as <- <-        (* take: chunk / stop order *)
+    | destruct (c_factory _ && _) eqn:Last; try discriminate;
+      destruct (full _ (s_resq s)) eqn:Fu; try discriminate; injection W as <- <-                (* result *)
+    | destruct (full _ (s_resq s)) eqn:Fu; try discriminate; injection W as <- <-                (* result after the notice *)
+    | destruct (c_factory _ && _) eqn:Last; try discriminate; injection W as <- <-               (* retirement notice *)
+    | injection W as <- <-                                                                       (* end *)
+    | injection W as <- <- ]                                                                     (* functor fault *)
   end.
 
 Lemma nth_set_nth_cases {A} (l : list A) k x j y : nth_error (set_nth k x l) j = Some y ->
@@ -227,17 +231,21 @@ Proof.
   - right. split; auto. rewrite nth_error_set_nth_neq in H; auto.
 Qed.
 
+Definition retiring (w : worker) : bool := match w_pc w with WHoldR _ _ | WEnding | WDead => true | _ => false end.
+
 Lemma wstep_struct cfg w kind s w' s1 : kind <> 5 -> worker_step cfg w kind false s = Some (w', s1) ->
   w_pc w <> WNew /\ w_pc w' <> WNew
   /\ (w_ready w' = true \/ (w_ready w' = w_ready w /\ w_pc w <> WBegin))
-  /\ (w_pc w' = WRetire -> c_factory cfg = true)
-  /\ (s_replq s1 = s_replq s \/ (s_replq s1 = s_replq s ++ [Some (w_id w)] /\ w_pc w = WRetire /\ w_pc w' = WEnding))
+  /\ (forall i xs, w_pc w' = WHoldR i xs -> c_factory cfg = true)
+  /\ (s_replq s1 = s_replq s \/ (s_replq s1 = s_replq s ++ [Some (w_id w)] /\ retiring w = false /\ retiring w' = true /\ c_factory cfg = true))
   /\ s_main s1 = s_main s /\ s_rep s1 = s_rep s /\ s_procs s1 = s_procs s.
 Proof.
-  intros Hk W. wstep_cases W w s; try congruence; simpl; repeat split; auto; try discriminate;
+  intros Hk W. wstep_cases W w s; try congruence; unfold retiring; simpl; rewrite ?Pc; repeat split; auto; try discriminate;
     try (right; split; [reflexivity | discriminate]).
-  - destruct (w_quota w) as [[|[|?]]|]; simpl; try destruct (c_factory cfg); discriminate.
-  - destruct (w_quota w) as [[|[|?]]|]; simpl; try destruct (c_factory cfg) eqn:Fa; try discriminate; auto.
+  - destruct (w_quota w) as [[|[|?]]|]; simpl; discriminate.
+  - intros i0 xs0. destruct (w_quota w) as [[|[|?]]|]; simpl; discriminate.
+  - intros _ _ _. apply andb_true_iff in Last. tauto.
+  - right. apply andb_true_iff in Last. tauto.
 Qed.
 
 Lemma sinv_slot cfg s k kind s' : kind <> 5 -> SInv cfg s -> slot_step cfg s k kind false = Some s' -> SInv cfg s'.
@@ -252,9 +260,9 @@ Proof.
   - intros j y Hy Hr. apply nth_set_nth_cases in Hy. destruct Hy as [[-> ->]|[Hne Hy]]; [|eapply Sr; eauto].
     destruct P3 as [P3|[P3 P3']]; [congruence|]. rewrite P3 in Hr. destruct (Sr k w N Hr); congruence.
   - intros Fa. destruct (Sn Fa) as (Q1 & Q2 & Q3 & Q4). split; [|split; auto].
-    + destruct P5 as [->|(_ & Pr & _)]; auto. exfalso. apply (Q2 k w N Pr).
-    + intros j y Hy. apply nth_set_nth_cases in Hy. destruct Hy as [[-> ->]|[Hne Hy]]; [|eapply Q2; eauto].
-      intros E. specialize (P4 E). congruence.
+    + destruct P5 as [->|(_ & _ & _ & Pf)]; auto. congruence.
+    + intros j y i0 xs0 Hy. apply nth_set_nth_cases in Hy. destruct Hy as [[-> ->]|[Hne Hy]]; [|eapply Q2; eauto].
+      intros E. specialize (P4 _ _ E). congruence.
   - destruct P5 as [->|(-> & _)]; auto. rewrite nones_app. unfold nones at 2. simpl. lia.
 Qed.
 
@@ -272,7 +280,7 @@ Proof.
     destruct Se as [Se1 Se2]. split; [apply Nat.ltb_lt; auto|]. intros j y Hy. apply nth_set_nth_cases in Hy.
     destruct Hy as [[-> ->]|[Hne Hy]]; simpl; [split; [lia | discriminate]|]. specialize (Se2 j y Hy). split; intros Hx; [apply Se2; lia | apply Se2 in Hx; lia].
   - intros j y Hy Hr. apply nth_set_nth_cases in Hy. destruct Hy as [[-> ->]|[Hne Hy]]; simpl; auto. eapply Sr; eauto.
-  - intros Fa. destruct (Sn Fa) as (Q1 & Q2 & Q3 & Q4). repeat split; auto. intros j y Hy. apply nth_set_nth_cases in Hy.
+  - intros Fa. destruct (Sn Fa) as (Q1 & Q2 & Q3 & Q4). repeat split; auto. intros j y i0 xs0 Hy. apply nth_set_nth_cases in Hy.
     destruct Hy as [[-> ->]|[Hne Hy]]; simpl; [discriminate | eapply Q2; eauto].
   - (* EStartW, the last one *)
     destruct Se as [Se1 Se2]. intros j y Hy. pose proof Hy as Hy0. apply nth_set_nth_cases in Hy.
@@ -280,7 +288,7 @@ Proof.
     assert (j < length (s_procs s)) by (apply nth_error_Some; congruence).
     match goal with Hb : (_ <? _) = false |- _ => apply Nat.ltb_ge in Hb end. lia.
   - intros j y Hy Hr. apply nth_set_nth_cases in Hy. destruct Hy as [[-> ->]|[Hne Hy]]; simpl; auto. eapply Sr; eauto.
-  - intros Fa. destruct (Sn Fa) as (Q1 & Q2 & Q3 & Q4). repeat split; auto. intros j y Hy. apply nth_set_nth_cases in Hy.
+  - intros Fa. destruct (Sn Fa) as (Q1 & Q2 & Q3 & Q4). repeat split; auto. intros j y i0 xs0 Hy. apply nth_set_nth_cases in Hy.
     destruct Hy as [[-> ->]|[Hne Hy]]; simpl; [discriminate | eapply Q2; eauto].
   - (* ENext, factory *) destruct (s_rep s); lia.
   - intros Fa _. apply Sp; auto. discriminate.
@@ -297,7 +305,7 @@ Proof.
 Qed.
 
 (* ------------------------------------------------------------------ retired workers are pending replacement *)
-Definition gone (w : worker) : bool := match w_pc w with WEnding | WDead => true | _ => false end.
+Definition gone (w : worker) : bool := retiring w.
 Definition somes (q : list (option nat)) : list nat := flat_map (fun o => match o with Some x => [x] | None => [] end) q.
 Definition rep_wid (s : state) : list nat :=
   match s_rep s with
@@ -374,15 +382,17 @@ Lemma wstep_gone cfg w kind s w' s1 : kind <> 5 -> worker_step cfg w kind false 
   w_id w' = w_id w
   /\ (gone w = true -> gone w' = true)
   /\ (gone w' = true -> gone w = true
-        \/ (w_pc w = WRetire /\ s_replq s1 = s_replq s ++ [Some (w_id w)])
+        \/ (gone w = false /\ s_replq s1 = s_replq s ++ [Some (w_id w)])
         \/ (exists q, s_workq s = QNone :: q)
-        \/ (c_factory cfg = false /\ exists r i xs, w_quota w = Some r /\ w_pc w = WHold i xs))
-  /\ (s_replq s1 = s_replq s \/ (s_replq s1 = s_replq s ++ [Some (w_id w)] /\ w_pc w = WRetire))
+        \/ ((c_factory cfg = false \/ w_quota w <> Some 1) /\ exists r i xs, w_quota w = Some r /\ r - 1 = 0 /\ w_pc w = WHold i xs))
+  /\ (s_replq s1 = s_replq s \/ (s_replq s1 = s_replq s ++ [Some (w_id w)] /\ gone w = false /\ gone w' = true))
   /\ (s_workq s1 = s_workq s \/ exists it, s_workq s = it :: s_workq s1)
   /\ is_dead w = false.
 Proof.
-  intros Hk W. wstep_cases W w s; try congruence; unfold gone, is_dead; simpl; rewrite ?Pc; repeat split; auto; try discriminate; eauto.
-  destruct (w_quota w) as [[|[|?]]|]; simpl; try discriminate; destruct (c_factory cfg); try discriminate; intros _; right; right; right; eauto 8.
+  intros Hk W. wstep_cases W w s; try congruence; unfold gone, retiring, is_dead; simpl; rewrite ?Pc; repeat split; auto; try discriminate; eauto.
+  destruct (w_quota w) as [[|[|?]]|] eqn:Hq; simpl; try discriminate; intros _; right; right; right.
+  - split; [right; discriminate|]. exists 0, i, xs. auto.
+  - split; [|exists 1, i, xs; auto]. apply andb_false_iff in Last. destruct Last as [L|L]; [left; exact L | discriminate].
 Qed.
 
 Lemma winv_quota_hold cfg w r i xs : WInv cfg w -> w_pc w = WHold i xs -> w_quota w = Some r -> exists k, c_quota cfg = Some k.
@@ -417,8 +427,8 @@ Proof.
   clear Hs'.
   assert (Ids : map w_id (s_procs s') = map w_id (s_procs s)) by (rewrite E1; apply ids_set_nth with (w := w); auto).
   assert (Rw : rep_wid s' = rep_wid s) by (apply pending_frame; auto).
-  assert (Pe : pending s' = pending s \/ (pending s' = pending s ++ [w_id w] /\ w_pc w = WRetire /\ w_pc w' = WEnding)).
-  { unfold pending. rewrite Rw, E6. destruct P5 as [->|(-> & Hr & He)]; [left; reflexivity | right].
+  assert (Pe : pending s' = pending s \/ (pending s' = pending s ++ [w_id w] /\ gone w = false /\ gone w' = true)).
+  { unfold pending. rewrite Rw, E6. destruct P5 as [->|(-> & Hr & He & _)]; [left; reflexivity | right].
     split; auto. rewrite somes_app. simpl. rewrite app_assoc. reflexivity. }
   assert (Sub : forall x, In x (pending s) -> In x (pending s')).
   { intros x Hx. destruct Pe as [->|[-> _]]; auto. apply in_or_app. left. exact Hx. }
@@ -433,12 +443,12 @@ Proof.
   - destruct Pe as [->|[-> [Hr _]]]; auto.
     apply NoDup_app_single. split; auto. intros Hin. destruct (Pg _ Hin) as (k0 & w0 & H0 & Hi & Hg).
     assert (k0 = k) by (eapply ids_inj; eauto). subst k0. assert (w0 = w) by congruence. subst w0.
-    unfold gone in Hg. rewrite Hr in Hg. discriminate.
+    congruence.
   - intros wid Hin. destruct Pe as [Pe|[Pe [Hr He]]]; rewrite Pe in Hin.
     + destruct (Pg _ Hin) as (k0 & w0 & H0 & Hi & Hg). destruct (Keep _ _ H0 Hg) as (w1 & ? & ? & ?). exists k0, w1. repeat split; auto. congruence.
     + apply in_app_or in Hin. destruct Hin as [Hin|[<-|[]]].
       * destruct (Pg _ Hin) as (k0 & w0 & H0 & Hi & Hg). destruct (Keep _ _ H0 Hg) as (w1 & ? & ? & ?). exists k0, w1. repeat split; auto. congruence.
-      * exists k, w'. rewrite E1, (nth_error_set_nth_eq _ _ _ _ N). repeat split; auto. unfold gone. rewrite He. reflexivity.
+      * exists k, w'. rewrite E1, (nth_error_set_nth_eq _ _ _ _ N). repeat split; auto.
   - intros Hx k0 y Hy Hg. rewrite E1 in Hy. apply nth_set_nth_cases in Hy. destruct Hy as [[-> ->]|[Hne Hy]].
     + rewrite G1. destruct (G3 Hg) as [Hw|[[Hr Hq]|[[q Hq]|[Fa (r & i & xs & Hqu & Hh)]]]].
       * apply Sub. eapply Pp; eauto.
@@ -447,7 +457,9 @@ Proof.
            apply (f_equal (@length nat)) in Pe. rewrite !app_length in Pe. simpl in Pe. lia.
         -- apply in_or_app. right. left. reflexivity.
       * exfalso. apply (Pt Hx QNone); [rewrite Hq; left; reflexivity | reflexivity].
-      * exfalso. destruct (winv_quota_hold _ _ _ _ _ Wi Hh Hqu) as (kq & Hkq). destruct (Cq _ Hkq). congruence.
+      * exfalso. destruct Hh as (Hr1 & Hh). destruct (winv_quota_hold _ _ _ _ _ Wi Hh Hqu) as (kq & Hkq). destruct (Cq _ Hkq) as [_ Hfa].
+        assert (r = 1). { unfold WInv in Wi. rewrite Hh in Wi. destruct Wi as (n0 & _ & _ & _ & Qp). unfold qpos in Qp. rewrite Hqu in Qp. lia. }
+        subst r. destruct Fa as [Fa|Fa]; congruence.
     + apply Sub. eapply Pp; eauto.
   - intros k0 Hk0. destruct (Pr k0 Hk0) as (w0 & H0 & Hd). exists w0. split; auto. rewrite E1.
     rewrite nth_error_set_nth_neq; auto. intros ->. assert (w0 = w) by congruence. subst w0. congruence.
@@ -510,10 +522,10 @@ Proof.
        | simpl; intros Hx it Hin; auto]; fail).
   - (* EStartW *)
     apply (pinv_replace s _ k w (mkW (w_id w) WBegin (w_quota w) false (w_log w))); simpl; auto;
-      try (unfold gone, is_dead; simpl; match goal with Hp : w_pc w = _ |- _ => rewrite Hp end; reflexivity).
+      try (unfold gone, retiring, is_dead; simpl; match goal with Hp : w_pc w = _ |- _ => rewrite Hp end; reflexivity).
     match goal with Hm : s_main s = _ |- _ => rewrite Hm end. auto.
   - apply (pinv_replace s _ k w (mkW (w_id w) WBegin (w_quota w) false (w_log w))); simpl; auto;
-      try (unfold gone, is_dead; simpl; match goal with Hp : w_pc w = _ |- _ => rewrite Hp end; reflexivity).
+      try (unfold gone, retiring, is_dead; simpl; match goal with Hp : w_pc w = _ |- _ => rewrite Hp end; reflexivity).
     match goal with Hm : s_main s = _ |- _ => rewrite Hm end. auto.
   - (* ERJoin *)
     match goal with Hs : slot_of _ _ = Some _ |- _ => destruct (slot_of_spec _ _ _ Hs) as (w1 & Hw1 & Hi1) end.
@@ -539,6 +551,61 @@ Proof.
       destruct (Pp Hx k0 y Hy Hg) as [Hi|Hi]; auto. exfalso. apply Hne. eapply ids_inj; eauto.
     + discriminate.
     + exact Pt.
+Qed.
+
+(* ------------------------------------------------------------------ the replace queue: notices before the stop token *)
+(* A retirement notice is put while its worker still holds its last chunk, so inside a call; the stop token is put after
+   the call's last result has been fetched.  Hence nothing follows the stop token in the queue, and once the replace thread
+   has taken it (or is off) no notice is pending: every retired worker has been replaced. *)
+Fixpoint after_none (q : list (option nat)) : list (option nat) :=
+  match q with [] => [] | None :: t => t | Some _ :: t => after_none t end.
+Lemma after_none_app q x : nones q = 0 -> after_none (q ++ x) = after_none x.
+Proof. induction q as [|[a|] q IH]; simpl; auto. unfold nones. simpl. discriminate. Qed.
+
+Record XInv (s : state) : Prop := {
+  x_after : after_none (s_replq s) = [];
+  x_quiet : rep_live (s_rep s) = false -> somes (s_replq s) = [];
+}.
+
+Lemma wstep_notice cfg w kind r s w' s1 : worker_step cfg w kind r s = Some (w', s1) ->
+  s_rep s1 = s_rep s /\ (s_replq s1 = s_replq s \/ (s_replq s1 = s_replq s ++ [Some (w_id w)] /\ c_factory cfg = true /\ exists i xs, w_pc w = WHold i xs)).
+Proof.
+  intros W. unfold worker_step in W.
+  destruct kind as [|[|[|[|[|[|?]]]]]]; destruct (w_pc w) eqn:Pc; try discriminate;
+    repeat match type of W with context [match ?x with _ => _ end] => destruct x eqn:?; try discriminate end;
+    injection W as <- <-; simpl; split; auto.
+  right. split; auto. split; eauto.
+  match goal with Hl : (c_factory cfg && _) = true |- _ => apply andb_true_iff in Hl; tauto end.
+Qed.
+
+Lemma xinv_slot cfg s k kind r s' : Inv s -> SInv cfg s -> XInv s -> slot_step cfg s k kind r = Some s' -> XInv s'.
+Proof.
+  intros IV SI [Xa Xq] H. apply slot_step_inv in H. destruct H as (w & w' & s1 & N & W & ->).
+  destruct (wstep_notice _ _ _ _ _ _ _ W) as (Er & [Eq|(Eq & Fa & i & xs & Pc)]).
+  - constructor; unfold with_procs; simpl; rewrite ?Er, ?Eq; auto.
+  - assert (Hc : in_call (s_main s) = true).
+    { destruct (in_call (s_main s)) eqn:Hc; auto. exfalso. pose proof (i_call s IV) as Ic. rewrite Hc in Ic.
+      apply entries_nil_parts in Ic. destruct Ic as (_ & Hh & _). pose proof (nth_error_hw_nil _ _ _ Hh N) as Hw.
+      unfold hw in Hw. rewrite Pc in Hw. discriminate. }
+    pose proof (s_tok _ _ SI) as St.
+    assert (Hn : nones (s_replq s) = 0) by (destruct (s_main s); try discriminate; lia).
+    assert (Lv : rep_live (s_rep s) = true).
+    { destruct (s_replive _ _ SI Fa) as [Lv|Rd]; auto; [destruct (s_main s); try discriminate; simpl; lia|].
+      rewrite Rd in St. destruct (s_main s); try discriminate; lia. }
+    constructor; unfold with_procs; simpl; rewrite ?Er, ?Eq.
+    + rewrite after_none_app; auto.
+    + intros Hl. congruence.
+Qed.
+
+Lemma xinv_step cfg s e s' : Inv s -> SInv cfg s -> XInv s -> step cfg s e = Some s' -> XInv s'.
+Proof.
+  intros IV SI I H.
+  destruct e; try (simpl in H; eapply xinv_slot; [exact IV|exact SI|exact I|exact H]).
+  all: pose proof (s_tok _ _ SI) as St; destruct I as [Xa Xq]; step_cases H; injection H as <-; constructor; simpl; auto; try discriminate.
+  - (* ERepPut *) rewrite after_none_app; auto. destruct (s_rep s); lia.
+  - intros Hl. rewrite somes_app, Xq; auto.
+  - (* ERGet takes the stop token: nothing is behind it *) simpl in Xa. subst. reflexivity.
+  - simpl in Xa. subst. reflexivity.
 Qed.
 
 (* ------------------------------------------------------------------ leaving the pool: stop orders and the workers that will take them *)
@@ -570,9 +637,8 @@ Qed.
 Record EInv (cfg : config) (s : state) : Prop := {
   e_put : forall n, s_main s = MExitPut n -> 1 <= n;
   e_suff : exit_class (s_main s) = true -> consumers (s_procs s) <= length (s_workq s) + todo_put (s_main s);
-  e_exact : exit_class (s_main s) = true -> c_quota cfg = None -> length (s_workq s) + todo_put (s_main s) <= consumers (s_procs s);
+  e_exact : exit_class (s_main s) = true -> length (s_workq s) + todo_put (s_main s) <= consumers (s_procs s);
   e_le : exit_class (s_main s) = true -> length (s_workq s) + todo_put (s_main s) <= length (s_procs s);
-  e_allc : c_quota cfg = None -> exit_class (s_main s) = false -> forall j w, nth_error (s_procs s) j = Some w -> consumer w = true;
 }.
 
 Lemma workq_nil s : Inv s -> PInv s -> in_call (s_main s) = false -> exit_class (s_main s) = false -> s_workq s = [].
@@ -592,87 +658,88 @@ Proof.
   - left. auto.
   - left. split; auto. right. eauto.
   - right. left. auto.
-  - destruct (w_quota w) as [[|[|?]]|] eqn:Hq; simpl; try destruct (c_factory cfg); try (left; split; auto; fail);
+  - destruct (w_quota w) as [[|[|?]]|] eqn:Hq; simpl; try (left; split; auto; fail);
       right; right; repeat split; auto; eexists; eexists; eexists; split; reflexivity.
   - left. auto.
+  - destruct (w_quota w) as [[|[|?]]|] eqn:Hq; try (rewrite andb_false_r in Last; discriminate).
+    right; right; repeat split; auto; eexists; eexists; eexists; split; reflexivity.
   - left. auto.
 Qed.
 
 Lemma einv_slot cfg s k kind s' : cfg_ok cfg -> kind <> 5 -> Inv s -> LInv cfg s -> PInv s -> EInv cfg s ->
   slot_step cfg s k kind false = Some s' -> EInv cfg s'.
 Proof.
-  intros Ok Hk IV LI PI [Ep Es Ee El Ea] H.
+  intros Ok Hk IV LI PI [Ep Es Ee El] H.
   apply slot_step_inv in H. destruct H as (w & w' & s1 & N & W & Hs').
   pose proof (worker_step_frame _ _ _ _ _ _ _ W) as (F1 & F2 & F3 & F4 & F5 & F6 & F7 & F8).
-  assert (Wi : WInv cfg w) by (eapply Forall_nth_error; [apply (l_procs _ _ LI) | exact N]).
   assert (E1 : s_procs s' = set_nth k w' (s_procs s)) by (subst s'; unfold with_procs; simpl; rewrite F1; reflexivity).
   assert (E2 : s_main s' = s_main s) by (subst s'; unfold with_procs; simpl; auto).
   assert (E5 : s_workq s' = s_workq s1) by (subst s'; unfold with_procs; simpl; auto).
   clear Hs'. pose proof (consumers_set_nth _ k w w' N) as Cs. unfold cons1 in Cs.
-  assert (Qn : forall r i xs, c_quota cfg = None -> w_quota w = Some r -> w_pc w = WHold i xs -> False).
-  { intros r i xs Hq Hr Hp. destruct (winv_quota_hold _ _ _ _ _ Wi Hp Hr) as (kq & Hkq). congruence. }
+  assert (Nil : exit_class (s_main s) = true -> q_entries (s_workq s) = [] /\ held (s_procs s) = []).
+  { intros Hx. pose proof (i_call s IV) as Ic. destruct (s_main s); try discriminate; simpl in Ic;
+      apply entries_nil_parts in Ic; tauto. }
   assert (NoChunk : exit_class (s_main s) = true -> forall i xs q, s_workq s = QChunk i xs :: q -> False).
-  { intros Hx i xs q Hq. pose proof (i_call s IV) as Ic. destruct (s_main s); try discriminate; simpl in Ic;
-      apply entries_nil_parts in Ic; destruct Ic as (Hqe & _); rewrite Hq in Hqe; discriminate. }
+  { intros Hx i xs q Hq. destruct (Nil Hx) as (Hqe & _). rewrite Hq in Hqe. discriminate. }
+  assert (NoHold : exit_class (s_main s) = true -> forall i xs, w_pc w = WHold i xs -> False).
+  { intros Hx i xs Pc. destruct (Nil Hx) as (_ & Hh). pose proof (nth_error_hw_nil _ _ _ Hh N) as Hw. unfold hw in Hw. rewrite Pc in Hw. discriminate. }
   destruct (wstep_cons _ _ _ _ _ _ Hk W) as [[Hc Hq]|[[Hc1 [Hc2 Hq]]|[Hc1 [Hc2 [Hq (r & i & xs & Hr & Hp)]]]]].
   - rewrite Hc in Cs. constructor; rewrite ?E1, ?E2, ?E5, ?set_nth_length; auto.
     + intros Hx. destruct Hq as [->|(i & xs & Hq)]; [specialize (Es Hx); lia | exfalso; eapply NoChunk; eauto].
-    + intros Hx Hn. destruct Hq as [->|(i & xs & Hq)]; [specialize (Ee Hx Hn); lia | exfalso; eapply NoChunk; eauto].
+    + intros Hx. destruct Hq as [->|(i & xs & Hq)]; [specialize (Ee Hx); lia | exfalso; eapply NoChunk; eauto].
     + intros Hx. destruct Hq as [->|(i & xs & Hq)]; [specialize (El Hx); lia | exfalso; eapply NoChunk; eauto].
-    + intros Hn Hx j y Hy. apply nth_set_nth_cases in Hy. destruct Hy as [[-> ->]|[Hne Hy]]; [rewrite Hc|]; eauto.
   - rewrite Hc1, Hc2 in Cs. constructor; rewrite ?E1, ?E2, ?E5, ?set_nth_length; auto.
     + intros Hx. specialize (Es Hx). rewrite Hq in Es. simpl in Es. lia.
-    + intros Hx Hn. specialize (Ee Hx Hn). rewrite Hq in Ee. simpl in Ee. lia.
+    + intros Hx. specialize (Ee Hx). rewrite Hq in Ee. simpl in Ee. lia.
     + intros Hx. specialize (El Hx). rewrite Hq in El. simpl in El. lia.
-    + intros Hn Hx. exfalso. apply (p_notok s PI Hx QNone); [rewrite Hq; left; reflexivity | reflexivity].
-  - rewrite Hc1, Hc2 in Cs. constructor; rewrite ?E1, ?E2, ?E5, ?set_nth_length, ?Hq; auto.
+  - (* a worker stops being a consumer on its own only with a chunk in its hands: not while the pool is being left *)
+    rewrite Hc1, Hc2 in Cs. constructor; rewrite ?E1, ?E2, ?E5, ?set_nth_length, ?Hq; auto.
     + intros Hx. specialize (Es Hx). lia.
-    + intros Hx Hn. exfalso. eapply Qn; eauto.
-    + intros Hn Hx. exfalso. eapply Qn; eauto.
+    + intros Hx. exfalso. eapply NoHold; eauto.
 Qed.
 
-Lemma einv_step cfg s e s' : cfg_ok cfg -> Inv s -> LInv cfg s -> SInv cfg s -> PInv s -> EInv cfg s -> fault_free e ->
+Lemma einv_step cfg s e s' : cfg_ok cfg -> Inv s -> LInv cfg s -> SInv cfg s -> PInv s -> XInv s -> EInv cfg s -> fault_free e ->
   step cfg s e = Some s' -> EInv cfg s'.
 Proof.
-  intros Ok IV LI SI PI I Hff H.
+  intros Ok IV LI SI PI XI I Hff H.
   destruct e; try (simpl in Hff; contradiction);
     try match goal with r : bool |- _ => destruct r; [simpl in Hff; contradiction|] end;
     try (simpl in H; eapply einv_slot; [exact Ok| |exact IV|exact LI|exact PI|exact I|exact H]; discriminate).
-  all: destruct I as [Ep Es Ee El Ea]; step_cases H; injection H as <-.
-  all: try (constructor; simpl; rewrite ?set_nth_length; auto; try discriminate; try (intros; congruence);
-            try (intros Hn Hx; apply Ea; auto; repeat match goal with Hm : s_main _ = _ |- _ => rewrite Hm end; reflexivity); fail).
-  - (* EStartW *) constructor; simpl; rewrite ?set_nth_length; auto; try discriminate.
-    intros Hn _ j y Hy. apply nth_set_nth_cases in Hy. destruct Hy as [[-> ->]|[Hne Hy]]; [reflexivity|].
-    eapply Ea; eauto; match goal with Hm : s_main s = _ |- _ => rewrite Hm end; reflexivity.
-  - constructor; simpl; rewrite ?set_nth_length; auto; try discriminate.
-    intros Hn _ j y Hy. apply nth_set_nth_cases in Hy. destruct Hy as [[-> ->]|[Hne Hy]]; [reflexivity|].
-    eapply Ea; eauto; match goal with Hm : s_main s = _ |- _ => rewrite Hm end; reflexivity.
-  - (* ENext, leaving the pool: the work queue is empty, one stop order per worker is still to be put *)
+  all: destruct I as [Ep Es Ee El]; step_cases H; injection H as <-.
+  all: try (constructor; simpl; rewrite ?set_nth_length; auto; try discriminate; try (intros; congruence); fail).
+  - (* ENext, leaving the pool: the work queue is empty, one stop order per worker is still to be put; the replace thread
+       is off and has replaced every retired worker, so every worker is a consumer *)
     assert (Hm : s_main s = MIdle) by assumption.
     assert (Wq : s_workq s = []) by (apply workq_nil; auto; rewrite Hm; reflexivity).
     destruct Ok as (Ow & _). pose proof (s_len _ _ SI) as Hl.
+    assert (Roff : s_rep s = ROff) by (apply (s_rep0 _ _ SI); rewrite Hm; reflexivity).
+    assert (Pn : pending s = []) by (unfold pending, rep_wid; rewrite Roff; simpl; apply (x_quiet s XI); rewrite Roff; reflexivity).
+    assert (Allc : forall j w, nth_error (s_procs s) j = Some w -> consumer w = true).
+    { intros j w N. destruct (gone w) eqn:G.
+      - exfalso. assert (Hin : In (w_id w) (pending s)) by (apply (p_pend s PI) with (k := j); auto; rewrite Hm; reflexivity).
+        rewrite Pn in Hin. exact Hin.
+      - unfold gone, retiring in G. unfold consumer. destruct (w_pc w); auto; discriminate. }
     constructor; simpl; rewrite ?Wq; simpl; try discriminate.
     + intros n E. injection E as <-. lia.
     + intros _. apply consumers_le.
-    + intros _ Hn. rewrite consumers_all; auto; apply Ea; auto; rewrite Hm; reflexivity.
+    + intros _. rewrite consumers_all; auto.
     + intros _. lia.
   - (* EExitPut, the last one *)
     assert (Hm : s_main s = MExitPut 1) by assumption. rewrite Hm in *. simpl in *.
     constructor; simpl; rewrite ?app_length; simpl; try discriminate.
     + intros _. specialize (Es eq_refl). lia.
-    + intros _ Hn. specialize (Ee eq_refl Hn). lia.
+    + intros _. specialize (Ee eq_refl). lia.
     + intros _. specialize (El eq_refl). lia.
   - simpl in *.
     constructor; simpl; rewrite ?app_length; simpl; try discriminate.
     + intros n9 E. injection E as <-. lia.
     + intros _. specialize (Es eq_refl). lia.
-    + intros _ Hn. specialize (Ee eq_refl Hn). lia.
+    + intros _. specialize (Ee eq_refl). lia.
     + intros _. specialize (El eq_refl). lia.
-  - (* ERStart: not while leaving (the replace thread is off); otherwise the new worker is a consumer *)
+  - (* ERStart: not while leaving (the replace thread is off) *)
     assert (Hx : exit_class (s_main s) = false).
     { destruct (s_main s) eqn:M; auto; exfalso; pose proof (s_rep0 _ _ SI) as S0; rewrite M in S0; specialize (S0 eq_refl); congruence. }
     constructor; simpl; rewrite ?set_nth_length; try (intros; congruence); auto.
-    intros Hn _ j y Hy. apply nth_set_nth_cases in Hy. destruct Hy as [[-> ->]|[Hne Hy]]; [reflexivity|]. eapply Ea; eauto.
 Qed.
 
 (* ================================================================== part C: no deadlock *)
@@ -685,11 +752,19 @@ Proof.
   intros N Pc Q. split; [exact Logic.I|]. simpl. unfold slot_step. rewrite N. unfold worker_step. rewrite Pc.
   destruct (s_workq s) as [|[|] ?]; [contradiction | discriminate | discriminate].
 Qed.
-Lemma en_result cfg s k w i xs : nth_error (s_procs s) k = Some w -> w_pc w = WHold i xs -> full (c_rq_cap cfg) (s_resq s) = false ->
-  enabled cfg s (EWResult k).
+Definition last_chunk (cfg : config) (w : worker) : bool := c_factory cfg && (match w_quota w with Some 1 => true | _ => false end).
+Lemma en_result cfg s k w i xs : nth_error (s_procs s) k = Some w -> w_pc w = WHold i xs -> last_chunk cfg w = false ->
+  full (c_rq_cap cfg) (s_resq s) = false -> enabled cfg s (EWResult k).
+Proof.
+  unfold last_chunk. intros N Pc La Fu. split; [exact Logic.I|]. simpl. unfold slot_step. rewrite N. unfold worker_step. rewrite Pc, La, Fu. discriminate.
+Qed.
+Lemma en_resultR cfg s k w i xs : nth_error (s_procs s) k = Some w -> w_pc w = WHoldR i xs ->
+  full (c_rq_cap cfg) (s_resq s) = false -> enabled cfg s (EWResult k).
 Proof. intros N Pc Fu. split; [exact Logic.I|]. simpl. unfold slot_step. rewrite N. unfold worker_step. rewrite Pc, Fu. discriminate. Qed.
-Lemma en_retire cfg s k w : nth_error (s_procs s) k = Some w -> w_pc w = WRetire -> enabled cfg s (EWRetire k).
-Proof. intros N Pc. split; [exact Logic.I|]. simpl. unfold slot_step. rewrite N. unfold worker_step. rewrite Pc. discriminate. Qed.
+Lemma en_retire cfg s k w i xs : nth_error (s_procs s) k = Some w -> w_pc w = WHold i xs -> last_chunk cfg w = true -> enabled cfg s (EWRetire k).
+Proof.
+  unfold last_chunk. intros N Pc La. split; [exact Logic.I|]. simpl. unfold slot_step. rewrite N. unfold worker_step. rewrite Pc, La. discriminate.
+Qed.
 Lemma en_end cfg s k w : nth_error (s_procs s) k = Some w -> w_pc w = WEnding -> enabled cfg s (EWEnd k).
 Proof. intros N Pc. split; [exact Logic.I|]. simpl. unfold slot_step. rewrite N. unfold worker_step. rewrite Pc. discriminate. Qed.
 
@@ -702,22 +777,33 @@ Proof.
     + destruct IH as [(k & w & H & Hd)|IH]; [left; exists (S k), w; auto|]. right. intros [|k] w H; simpl in H; [congruence | eauto].
     + left. exists 0, p. auto.
 Qed.
-Lemma held_worker ps : held ps <> [] -> exists k w i xs, nth_error ps k = Some w /\ w_pc w = WHold i xs.
+Lemma held_worker ps : held ps <> [] -> exists k w i xs, nth_error ps k = Some w /\ (w_pc w = WHold i xs \/ w_pc w = WHoldR i xs).
 Proof.
   induction ps as [|p ps IH]; intros H; [contradiction|]. unfold held in H. simpl in H. fold (held ps) in H.
   destruct (w_pc p) eqn:Pc; try (unfold hw in H; rewrite Pc in H; simpl in H; destruct (IH H) as (k & w & i & xs & Hk & Hp); exists (S k), w, i, xs; auto; fail).
-  exists 0, p, i, xs. auto.
+  - exists 0, p, i, xs. auto.
+  - exists 0, p, i, xs. auto.
+Qed.
+Lemma hold_progress cfg s k w i xs : nth_error (s_procs s) k = Some w -> (w_pc w = WHold i xs \/ w_pc w = WHoldR i xs) ->
+  full (c_rq_cap cfg) (s_resq s) = false -> exists e, enabled cfg s e.
+Proof.
+  intros N [Pc|Pc] Fu.
+  - destruct (last_chunk cfg w) eqn:La; [exists (EWRetire k); eapply en_retire; eauto | exists (EWResult k); eapply en_result; eauto].
+  - exists (EWResult k). eapply en_resultR; eauto.
 Qed.
 
 (* the replace thread can move whenever it is alive and, if waiting on its queue, the queue is not empty *)
-Lemma rep_progress cfg s : PInv s -> rep_live (s_rep s) = true -> (s_rep s = RGet -> s_replq s <> []) -> exists e, enabled cfg s e.
+Lemma rep_progress cfg s : PInv s -> rep_live (s_rep s) = true -> (s_rep s = RGet -> s_replq s <> []) ->
+  (full (c_rq_cap cfg) (s_resq s) = false \/ held (s_procs s) = []) -> exists e, enabled cfg s e.
 Proof.
-  intros PI Hl Hq. destruct (s_rep s) eqn:R; try discriminate.
+  intros PI Hl Hq Hr. destruct (s_rep s) eqn:R; try discriminate.
   - exists ERGet. split; [exact Logic.I|]. simpl. rewrite R. destruct (s_replq s); [exfalso; apply Hq; auto | discriminate].
   - assert (Hin : In w (pending s)) by (unfold pending, rep_wid; rewrite R; left; reflexivity).
     destruct (p_gone s PI w Hin) as (k & x & N & Hi & Hg).
     assert (Sl : slot_of (s_procs s) w = Some k) by (rewrite <- Hi; apply slot_of_complete; [apply (p_nd s PI) | exact N]).
-    unfold gone in Hg. destruct (w_pc x) eqn:Pc; try discriminate.
+    unfold gone, retiring in Hg. destruct (w_pc x) eqn:Pc; try discriminate.
+    + destruct Hr as [Fu|Hh]; [exists (EWResult k); eapply en_resultR; eauto|].
+      exfalso. pose proof (nth_error_hw_nil _ _ _ Hh N) as Hw. unfold hw in Hw. rewrite Pc in Hw. discriminate.
     + exists (EWEnd k). eapply en_end; eauto.
     + exists ERJoin. split; [exact Logic.I|]. simpl. rewrite R, Sl, N. unfold is_dead. rewrite Pc. discriminate.
   - destruct (p_rstart s PI w R) as (x & N & Hd). exists ERStart. split; [exact Logic.I|]. simpl. rewrite R, N, Hd. discriminate.
@@ -734,20 +820,20 @@ Proof.
   { pose proof (s_enter _ _ SI) as Se. destruct (s_main s); try discriminate; exact Se. }
   destruct (held (s_procs s)) as [|h0 ht] eqn:Hh.
   2: { destruct (held_worker (s_procs s)) as (k & w & i & xs & N & Pc); [rewrite Hh; discriminate|].
-       exists (EWResult k). eapply en_result; eauto. }
+       eapply hold_progress; eauto. }
   assert (Q : s_workq s <> []) by (destruct Hw as [Q|Q]; [exact Q | contradiction]).
   destruct (worker_scan (s_procs s)) as [(k & w & N & Hd)|All].
   - unfold is_dead in Hd. destruct (w_pc w) eqn:Pc; try discriminate.
     + exfalso. apply (Hne k w N Pc).
     + exists (EWBegin k false). eapply en_begin; eauto.
     + exists (EWTake k). eapply en_take; eauto.
-    + exists (EWResult k). eapply en_result; eauto.
-    + exists (EWRetire k). eapply en_retire; eauto.
+    + eapply hold_progress; eauto.
+    + eapply hold_progress; eauto.
     + exists (EWEnd k). eapply en_end; eauto.
   - (* every worker is dead: each is pending replacement, and the replace thread is alive *)
     destruct Ok as (Ow & _). pose proof (s_len _ _ SI) as Hl.
     destruct (nth_error (s_procs s) 0) as [w|] eqn:N; [|apply nth_error_None in N; lia].
-    assert (Hg : gone w = true) by (pose proof (All 0 w N) as D; unfold is_dead in D; unfold gone; destruct (w_pc w); try discriminate; reflexivity).
+    assert (Hg : gone w = true) by (pose proof (All 0 w N) as D; unfold is_dead in D; unfold gone, retiring; destruct (w_pc w); try discriminate; reflexivity).
     pose proof (p_pend s PI Hx 0 w N Hg) as Hin.
     destruct (c_factory cfg) eqn:Fa.
     + assert (Hc0 : cur_class (s_main s) <> 0) by (destruct (s_main s); try discriminate; simpl; lia).
@@ -806,17 +892,18 @@ Qed.
 
 (* ------------------------------------------------------------------ all invariants together *)
 Record Live (cfg : config) (hist : list action) (s : state) : Prop := {
-  lv_h : HInv hist s; lv_l : LInv cfg s; lv_f : FInv s; lv_s : SInv cfg s; lv_p : PInv s; lv_e : EInv cfg s;
+  lv_h : HInv hist s; lv_l : LInv cfg s; lv_f : FInv s; lv_s : SInv cfg s; lv_p : PInv s; lv_x : XInv s; lv_e : EInv cfg s;
 }.
 
 Lemma live_step cfg hist s e s' : cfg_ok cfg -> Live cfg hist s -> fault_free e -> step cfg s e = Some s' -> Live cfg hist s'.
 Proof.
-  intros Ok [Lh Ll Lf Ls Lp Le] Hff H. pose proof (h_inv _ _ Lh) as IV. constructor.
+  intros Ok [Lh Ll Lf Ls Lp Lx Le] Hff H. pose proof (h_inv _ _ Lh) as IV. constructor.
   - eapply hinv_step; eauto.
   - eapply linv_step; eauto. apply cfg_ok_quota; auto.
   - eapply finv_step; eauto.
   - eapply sinv_step; eauto.
   - eapply pinv_step; eauto.
+  - eapply xinv_step; eauto.
   - eapply einv_step; eauto.
 Qed.
 
@@ -835,7 +922,7 @@ Proof.
     + rewrite map_length, seq_length. reflexivity.
     + rewrite map_length, seq_length. split; auto. intros j w H. destruct (Nth j w H) as [-> _]. simpl. split; auto. lia.
     + intros j w H _. destruct (Nth j w H) as [-> _]. auto.
-    + intros _. repeat split; auto. intros j w H. destruct (Nth j w H) as [-> _]. discriminate.
+    + intros _. repeat split; auto. intros j w i xs H. destruct (Nth j w H) as [-> _]. discriminate.
   - assert (Ids : map w_id (map (new_worker cfg) (seq 0 (c_workers cfg))) = seq 0 (c_workers cfg)).
     { rewrite map_map. simpl. apply map_id. }
     constructor; simpl; unfold pending, rep_wid; simpl; try discriminate; auto.
@@ -844,8 +931,8 @@ Proof.
     + constructor.
     + intros wid [].
     + intros _ k w H Hg. destruct (Nth k w H) as [-> _]. discriminate.
+  - constructor; simpl; auto.
   - constructor; simpl; try discriminate; auto.
-    intros _ _ j w H. destruct (Nth j w H) as [-> _]. reflexivity.
 Qed.
 
 Theorem live_run cfg hist sched : cfg_ok cfg -> Forall action_ok hist -> fault_free_sched sched ->
@@ -860,12 +947,9 @@ Proof.
 Qed.
 
 (* ------------------------------------------------------------------ deadlock freedom *)
-(* leaving the pool puts one stop order per worker slot; with a bounded work queue that only works if the queue can hold
-   the orders nobody will take (workers that retired at the very end of the last call and were not replaced):
-   the queue holds at least one order per worker, or no worker ever retires (no quota) *)
-Definition exit_cap_ok (cfg : config) : Prop :=
-  forall c, c_wq_cap cfg = Some c -> c_workers cfg <= c \/ c_quota cfg = None.
-
+(* leaving the pool puts one stop order per worker slot; with a bounded work queue that works because every slot holds a
+   worker that will take one: a worker that retired has announced it before delivering its last result, the notice is in
+   front of the replace thread's stop token, so the replace thread has replaced it before the call ended (XInv, EInv) *)
 Lemma consumers_ge1 ps k w : nth_error ps k = Some w -> consumer w = true -> 1 <= consumers ps.
 Proof.
   unfold consumers. revert k; induction ps as [|p ps IH]; intros [|k] H C; simpl in *; try discriminate.
@@ -873,15 +957,16 @@ Proof.
   - specialize (IH k H C). lia.
 Qed.
 
-Theorem deadlock_free_gen cfg hist s : cfg_ok cfg -> ((exists n, s_main s = MExitPut n) -> exit_cap_ok cfg) -> Live cfg hist s ->
-  s_main s <> MDone -> exists e, enabled cfg s e.
+Theorem deadlock_free cfg hist s : cfg_ok cfg -> Live cfg hist s -> s_main s <> MDone -> exists e, enabled cfg s e.
 Proof.
-  intros Ok Xc [Lh Ll Lf Ls Lp Le] Hnd. pose proof (h_inv _ _ Lh) as IV. pose proof Ok as (Ow & Owq & Orq & Oq).
+  intros Ok [Lh Ll Lf Ls Lp Lx Le] Hnd. pose proof (h_inv _ _ Lh) as IV. pose proof Ok as (Ow & Owq & Orq & Oq).
   assert (Hne : (forall k, s_main s <> MEnter k) -> forall j w, nth_error (s_procs s) j = Some w -> w_pc w <> WNew).
   { intros Hm. pose proof (s_enter _ _ Ls) as Se. destruct (s_main s) eqn:M; try exact Se. exfalso. eapply Hm; eauto. }
   assert (NoHold : in_call (s_main s) = false -> forall j w i xs, nth_error (s_procs s) j = Some w -> w_pc w = WHold i xs -> False).
   { intros Hc j w i xs N Pc. pose proof (i_call s IV) as Ic. rewrite Hc in Ic. apply entries_nil_parts in Ic.
     destruct Ic as (_ & Hh & _). pose proof (nth_error_hw_nil _ _ _ Hh N) as Hw. unfold hw in Hw. rewrite Pc in Hw. discriminate. }
+  assert (HeldNil : in_call (s_main s) = false -> held (s_procs s) = []).
+  { intros Hc. pose proof (i_call s IV) as Ic. rewrite Hc in Ic. apply entries_nil_parts in Ic. destruct Ic as (_ & Hh & _). exact Hh. }
   destruct (s_main s) eqn:M.
   - (* MEnter *)
     pose proof (s_enter _ _ Ls) as Se. rewrite M in Se. destruct Se as [Hk Se].
@@ -949,16 +1034,17 @@ Proof.
     all: assert (Fa : c_factory cfg = true) by (destruct (c_factory cfg) eqn:Fa; auto; destruct (s_nf _ _ Ls Fa) as (_ & _ & Q & _); rewrite M in Q; discriminate).
     all: pose proof (s_tok _ _ Ls) as St; rewrite M, R in St.
     all: try (destruct (s_replive _ _ Ls Fa) as [Lv|Rd]; [rewrite M; discriminate | rewrite R in Lv; discriminate | congruence]).
-    all: apply rep_progress; auto; try (rewrite R; reflexivity); intros _ Hq; rewrite Hq in St; unfold nones in St; simpl in St; lia.
+    all: apply rep_progress; auto; try (rewrite R; reflexivity); try (right; apply HeldNil; reflexivity).
+    all: intros _ Hq; rewrite Hq in St; unfold nones in St; simpl in St; lia.
   - (* MExitPut *)
-    pose proof (e_put _ _ Le n M) as Hn. assert (Xc' : exit_cap_ok cfg) by (apply Xc; eauto). clear Xc. rename Xc' into Xc.
+    pose proof (e_put _ _ Le n M) as Hn.
     destruct n as [|n]; [lia|].
     destruct (full (c_wq_cap cfg) (s_workq s)) eqn:Fw.
     2: { exists EExitPut. split; [exact Logic.I|]. simpl. rewrite M, Fw. discriminate. }
     unfold full in Fw. destruct (c_wq_cap cfg) as [c|] eqn:Cw; [|discriminate]. apply Nat.leb_le in Fw. specialize (Owq c eq_refl).
     pose proof (e_le _ _ Le) as El. pose proof (e_suff _ _ Le) as Es. pose proof (e_exact _ _ Le) as Ee. rewrite M in El, Es, Ee. simpl in El, Es, Ee.
     specialize (El eq_refl). specialize (Es eq_refl). pose proof (s_len _ _ Ls) as Hl.
-    destruct (Xc c Cw) as [Hcap|Hq]; [lia|]. specialize (Ee eq_refl Hq).
+    specialize (Ee eq_refl).
     destruct (consumers_pos (s_procs s)) as (k & w & N & Hcw); [lia|].
     assert (Q : s_workq s <> []) by (intros E; rewrite E in Fw; simpl in Fw; lia).
     unfold consumer in Hcw. destruct (w_pc w) eqn:Pc; try discriminate.
@@ -976,21 +1062,10 @@ Proof.
     + exists (EWTake k). eapply en_take; eauto. assert (1 <= consumers (s_procs s)) by (eapply consumers_ge1; eauto; unfold consumer; rewrite Pc; reflexivity).
       intros E. rewrite E in Es. simpl in Es. lia.
     + exfalso. eapply NoHold; eauto; reflexivity.
-    + exists (EWRetire k). eapply en_retire; eauto.
+    + exfalso. specialize (HeldNil eq_refl). pose proof (nth_error_hw_nil _ _ _ HeldNil N) as Hw. unfold hw in Hw. rewrite Pc in Hw. discriminate.
     + exists (EWEnd k). eapply en_end; eauto.
     + exists EExitJoin. split; [exact Logic.I|]. simpl. rewrite M, N. unfold is_dead. rewrite Pc. destruct (S k <? length (s_procs s)); discriminate.
   - contradiction.
-Qed.
-
-Theorem deadlock_free cfg hist s : cfg_ok cfg -> exit_cap_ok cfg -> Live cfg hist s -> s_main s <> MDone -> exists e, enabled cfg s e.
-Proof. intros Ok Xc. apply deadlock_free_gen; auto. Qed.
-
-(* inside the calls - that is, until the pool context is being left - no capacity condition is needed *)
-Theorem deadlock_free_calls cfg hist s : cfg_ok cfg -> Live cfg hist s -> exit_class (s_main s) = false -> exists e, enabled cfg s e.
-Proof.
-  intros Ok L Hx. apply (deadlock_free_gen cfg hist s); auto.
-  - intros (n & M). rewrite M in Hx. discriminate.
-  - intros M. rewrite M in Hx. discriminate.
 Qed.
 
 (* ------------------------------------------------------------------ termination *)
@@ -1007,21 +1082,21 @@ Proof.
   intros L Hc. pose proof (i_call s (h_inv _ _ (lv_h _ _ _ L))) as Ic. rewrite Hc in Ic. apply (ci_chunk s Ic).
 Qed.
 
-Theorem pool_terminates cfg hist pick : cfg_ok cfg -> exit_cap_ok cfg -> Forall action_ok hist ->
+Theorem pool_terminates cfg hist pick : cfg_ok cfg -> Forall action_ok hist ->
   (forall s, fault_free (pick s)) ->
   (forall s, (exists e, enabled cfg s e) -> step cfg s (pick s) <> None) ->
   s_main (drive cfg pick (mu (init cfg hist)) (init cfg hist)) = MDone.
 Proof.
-  intros Ok Xc Hh Pf Pe.
+  intros Ok Hh Pf Pe.
   assert (G : forall n s, Live cfg hist s -> mu s <= n -> s_main (drive cfg pick n s) = MDone).
   { induction n as [|n IH]; intros s L Hm; simpl.
     - destruct (s_main s) eqn:M; auto; exfalso;
-        (destruct (deadlock_free cfg hist s Ok Xc L) as (e & _ & He); [rewrite M; discriminate|]);
+        (destruct (deadlock_free cfg hist s Ok L) as (e & _ & He); [rewrite M; discriminate|]);
         (destruct (step cfg s e) as [s'|] eqn:E; [|contradiction]);
         pose proof (mu_step cfg s e s' (live_chunk _ _ _ L) E); lia.
     - destruct (step cfg s (pick s)) as [s'|] eqn:E.
       + apply IH; [eapply live_step; eauto|]. pose proof (mu_step cfg s (pick s) s' (live_chunk _ _ _ L) E). lia.
-      + destruct (s_main s) eqn:M; auto; exfalso; apply (Pe s); auto; apply (deadlock_free cfg hist s Ok Xc L); rewrite M; discriminate. }
+      + destruct (s_main s) eqn:M; auto; exfalso; apply (Pe s); auto; apply (deadlock_free cfg hist s Ok L); rewrite M; discriminate. }
   apply G; [apply live_init; auto | lia].
 Qed.
 
@@ -1045,31 +1120,8 @@ Proof.
   apply G; [apply live_init; auto | exact Hs].
 Qed.
 
-(* ------------------------------------------------------------------ the exit hang outside exit_cap_ok (known finding) *)
-Definition hang_cfg : config := mkCfg 2 (Some 1) None true (Some 1).
-Definition hang_hist : list action := [ACall true [1; 2]%Z 1].
-Definition hang_sched : list event :=
-  [EStartW; EStartW; ENext; ECallInit; ECheck; EFPut; EWBegin 1 false; EWTake 1; EWBegin 0 false; EFWake; EWResult 1; EGet; EProcess;
-   EFlow; ECheck; EFPut; EWTake 0; EFWake; EFClear; EWResult 0; EFTok; EGet; EProcess; EFlow; ECheck; EStopF; EJoinF; ERepPut;
-   EWRetire 1; EWRetire 0; EWEnd 0; EWEnd 1; ERGet; ERepJoin; ENext; EExitPut].
-
-Theorem exit_hang_refuted :
-  cfg_ok hang_cfg /\ ~ exit_cap_ok hang_cfg /\ Forall action_ok hang_hist /\ fault_free_sched hang_sched
-  /\ let s := run hang_cfg (init hang_cfg hang_hist) hang_sched in
-     s_main s = MExitPut 1 /\ s_done_calls s = [[1; 2]%Z] /\ forall e, step hang_cfg s e = None.
-Proof.
-  split; [|split; [|split; [|split]]].
-  - unfold cfg_ok, hang_cfg; simpl. split; [lia|]. split; [intros c H; injection H as <-; lia|]. split; [intros c H; discriminate|].
-    intros k H; injection H as <-; auto.
-  - intros H. destruct (H 1 eq_refl) as [H1|H1]; simpl in H1; [lia | discriminate].
-  - repeat constructor.
-  - repeat constructor.
-  - intros s. vm_compute in s. subst s. split; [reflexivity|]. split; [reflexivity|].
-    intros e. destruct e; try reflexivity; try (destruct slot as [|[|[|?]]]; reflexivity).
-Qed.
-
-(* without any condition on the exit capacity: every call of the history terminates with its results, i.e. the run
-   reaches the point where the pool context is being left, whatever the scheduler does *)
+(* every call of the history terminates with its results, i.e. the run reaches the point where the pool context is being
+   left, whatever the scheduler does *)
 Theorem calls_terminate cfg hist pick : cfg_ok cfg -> Forall action_ok hist ->
   (forall s, fault_free (pick s)) ->
   (forall s, (exists e, enabled cfg s e) -> step cfg s (pick s) <> None) ->
@@ -1081,12 +1133,12 @@ Proof.
              exit_class (s_main (drive cfg pick n s)) = true /\ Live cfg hist (drive cfg pick n s)).
   { induction n as [|n IH]; intros s L Hm; simpl.
     - split; auto. destruct (exit_class (s_main s)) eqn:X; auto. exfalso.
-      destruct (deadlock_free_calls cfg hist s Ok L X) as (e & _ & He).
+      destruct (deadlock_free cfg hist s Ok L) as (e & _ & He); [intros M; rewrite M in X; discriminate|].
       destruct (step cfg s e) as [s'|] eqn:E; [|contradiction].
       pose proof (mu_step cfg s e s' (live_chunk _ _ _ L) E). lia.
     - destruct (step cfg s (pick s)) as [s'|] eqn:E.
       + apply IH; [eapply live_step; eauto|]. pose proof (mu_step cfg s (pick s) s' (live_chunk _ _ _ L) E). lia.
-      + split; auto. destruct (exit_class (s_main s)) eqn:X; auto. exfalso. apply (Pe s); auto. apply (deadlock_free_calls cfg hist s Ok L X). }
+      + split; auto. destruct (exit_class (s_main s)) eqn:X; auto. exfalso. apply (Pe s); auto. apply (deadlock_free cfg hist s Ok L). intros M; rewrite M in X; discriminate. }
   intros s. destruct (G (mu (init cfg hist)) (init cfg hist)) as [X L]; [apply live_init; auto | lia |]. fold s in X, L.
   split; auto. destruct (lv_h _ _ _ L) as [_ (done & Hsplit & Hdone) _ Hx].
   rewrite (Hx X) in Hsplit. unfold cur_call in Hsplit.
